@@ -1284,7 +1284,7 @@ func randTarget(r *lib.Run, c Ctx) T {
 		}
 	}
 	t.Command = pick(r, alpha)
-	if some(20) {
+	if some(35) { // per-config commands: with / without an entry for the active and the fallback config
 		kv := randKVs(r, []string{"opt", "dbg", "cover", "zz", ""}, 3)
 		t.Commands = &kv
 	}
@@ -1356,8 +1356,11 @@ func randTarget(r *lib.Run, c Ctx) T {
 
 func randCtx(r *lib.Run) Ctx {
 	c := Ctx{Config: "opt", Fallback: "opt"}
-	if r.Rng.Chance(20) {
-		c.Config = pick(r, []string{"dbg", "cover", "opt"})
+	if r.Rng.Chance(40) { // plz -c dbg / cover, [build] config, [build] fallbackconfig
+		c.Config = pick(r, []string{"dbg", "cover", "opt", "prof"})
+	}
+	if r.Rng.Chance(25) {
+		c.Fallback = pick(r, []string{"dbg", "opt", "zz"})
 	}
 	if r.Rng.Chance(30) {
 		c.Runtime = true
@@ -1531,10 +1534,30 @@ func mutate(r *lib.Run, c Ctx, t T) (T, Ctx, string) {
 				}
 			}
 		}
-	case 11: // plain edits that must change the hash
-		u.Command += "!"
+	case 11: // plain edits that must change the hash: the command that will actually run
 		if u.Commands == nil {
+			u.Command += "!"
 			return u, c, "command-edit"
+		}
+		// GetCommand: the entry for the active config, else for the fallback config, else the greatest key
+		idx, best := -1, ""
+		for _, want := range []string{c.Config, c.Fallback} {
+			for i, kv := range *u.Commands {
+				if idx < 0 && kv.K == want {
+					idx = i
+				}
+			}
+		}
+		if idx < 0 {
+			for i, kv := range *u.Commands {
+				if kv.K > best {
+					idx, best = i, kv.K
+				}
+			}
+		}
+		if idx >= 0 {
+			(*u.Commands)[idx].V += "!"
+			return u, c, "commands-edit-effective"
 		}
 	case 12:
 		u.FileContent += "!"
